@@ -31,7 +31,7 @@ SUBS = [["t"], ["u"], ["t", "u"]]
 RACKS = ["", "r1", "r2"]
 MAX_REPORTED = 8           # violations reported per run (each with its own replay directory)
 JVM_OPTS = "-XX:ActiveProcessorCount=2 -Xmx4g"   # 16 judges run side by side: keep each JVM's GC/JIT thread pools small
-ROUNDS_PER_SHARD = 4       # after a violated line the rest of the shard is judged again, this many times
+ROUNDS_PER_SHARD = 2       # after a violated line the rest of the shard is judged again, this many times
 
 
 # ------------------------------------------------------------------------------------------- inputs
@@ -211,7 +211,7 @@ def judge_shard(ctx, sid, lines, state):
             viols.append((r["violated"], remaining[k - 1], r["out"][-6000:]))
             with state["lock"]:
                 state["nviol"] += 1
-                if state["nviol"] >= 3 * MAX_REPORTED:
+                if state["nviol"] >= 2 * MAX_REPORTED:
                     state["stop"] = True
             remaining = remaining[k:]
             continue
